@@ -1203,3 +1203,92 @@ func (c *Ctx) quoteOperandSite(fc *FCFG, b *cfg.Block, e ast.Expr) bool {
 	})
 	return ok && nother == 0
 }
+
+// callbackDriver: node lies inside a function literal of u that is passed, as an argument, to a
+// declared function of the same package which calls that parameter only inside a loop over one of
+// its slice parameters (an internal iterator: `forEachTopLevelForm(exprs, func(expr, head, pkg) { … })`).
+// Returns the driver, the loop inside it, the call in u and the slice argument the literal is driven over.
+func (c *Ctx) callbackDriver(u FuncUnit, node ast.Node) (drv FuncUnit, loop ast.Stmt, call *ast.CallExpr, over ast.Expr, ok bool) {
+	info := u.Pkg.TypesInfo
+	var best *ast.CallExpr
+	var bestLit *ast.FuncLit
+	bestIdx := -1
+	ast.Inspect(u.Decl.Body, func(n ast.Node) bool {
+		ce, isCall := n.(*ast.CallExpr)
+		if !isCall {
+			return true
+		}
+		for i, a := range ce.Args {
+			if fl, isLit := ast.Unparen(a).(*ast.FuncLit); isLit && fl.Pos() <= node.Pos() && node.End() <= fl.End() {
+				// innermost such literal wins
+				if bestLit == nil || (bestLit.Pos() <= fl.Pos() && fl.End() <= bestLit.End()) {
+					best, bestLit, bestIdx = ce, fl, i
+				}
+			}
+		}
+		return true
+	})
+	if best == nil {
+		return
+	}
+	h := originOf(Callee(info, best))
+	if h == nil || u.Obj == nil || h.Pkg() != u.Obj.Pkg() {
+		return
+	}
+	hd := c.declOf[h]
+	if hd == nil || hd.Body == nil {
+		return
+	}
+	hu := FuncUnit{h, hd, c.pkgOf[hd]}
+	hinfo := hu.Pkg.TypesInfo
+	ps := paramObjs(hu)
+	if bestIdx >= len(ps) {
+		return
+	}
+	fnParam := ps[bestIdx]
+	// every call of the parameter is inside one loop over a slice parameter
+	var theLoop ast.Stmt
+	var sliceParam types.Object
+	good, ncalls := true, 0
+	var walk func(n ast.Node, enclosing ast.Stmt, overObj types.Object)
+	walk = func(n ast.Node, enclosing ast.Stmt, overObj types.Object) {
+		ast.Inspect(n, func(m ast.Node) bool {
+			if m == nil || m == n {
+				return true
+			}
+			switch x := m.(type) {
+			case *ast.RangeStmt:
+				if o := identObj(hinfo, x.X); o != nil {
+					for _, p := range ps {
+						if p == o {
+							walk(x.Body, x, o)
+							return false
+						}
+					}
+				}
+			case *ast.CallExpr:
+				if identObj(hinfo, x.Fun) == fnParam {
+					ncalls++
+					if enclosing == nil {
+						good = false
+					} else if theLoop == nil {
+						theLoop, sliceParam = enclosing, overObj
+					} else if theLoop != enclosing {
+						good = false
+					}
+				}
+			}
+			return true
+		})
+	}
+	walk(hd.Body, nil, nil)
+	if !good || ncalls == 0 || theLoop == nil {
+		return
+	}
+	for i, p := range ps {
+		if p == sliceParam && i < len(best.Args) {
+			over = best.Args[i]
+		}
+	}
+	return hu, theLoop, best, over, over != nil
+}
